@@ -123,12 +123,19 @@ Observed == ev.ev \in {"Add", "First", "Pop", "Final"}    \* events that carry t
 NoPanic == ev.ev \in {"Add", "First", "Pop", "Ret"} => ~ev.panic
 
 (* C46, evaluated on every recorded state of the real buffer.               *)
-C46_Sorted == Observed => OB!IsSorted(buf)
-C46_Capacity == Observed => Len(buf) <= cap
-C46_LowestFirst ==
+Raw_C46_Sorted == Observed => OB!IsSorted(buf)
+Raw_C46_Capacity == Observed => Len(buf) <= cap
+Raw_C46_LowestFirst ==
   /\ IsOp("First") => OB!FirstOK(pre, ev.ok, Item(ev.item), buf)
   /\ IsOp("Pop") => OB!PopOK(pre, ev.ok, Item(ev.item), buf)
-C46_AddDropsOnlyHighest == IsOp("Add") => ev.ok /\ OB!AddOK(pre, Item(ev), buf, cap)
-C46_RepeatIgnored == (IsOp("Add") /\ OB!MustIgnore(pre, Item(ev))) => OB!SameBag(buf, pre)
-C46_Linearizable == confs # {}
+Raw_C46_AddDropsOnlyHighest == IsOp("Add") => ev.ok /\ OB!AddOK(pre, Item(ev), buf, cap)
+Raw_C46_RepeatIgnored == (IsOp("Add") /\ OB!MustIgnore(pre, Item(ev))) => OB!SameBag(buf, pre)
+Raw_C46_Linearizable == confs # {}
+(* events marked by bin/vcheck as instances of a listed known finding are consumed, not judged *)
+C46_Sorted == IsKnown(ev) \/ Raw_C46_Sorted
+C46_Capacity == IsKnown(ev) \/ Raw_C46_Capacity
+C46_LowestFirst == IsKnown(ev) \/ Raw_C46_LowestFirst
+C46_AddDropsOnlyHighest == IsKnown(ev) \/ Raw_C46_AddDropsOnlyHighest
+C46_RepeatIgnored == IsKnown(ev) \/ Raw_C46_RepeatIgnored
+C46_Linearizable == IsKnown(ev) \/ Raw_C46_Linearizable
 =============================================================================
